@@ -58,7 +58,7 @@ func main() {
 		// random part
 		n := 6000
 		if h.Thorough() {
-			n = 200000
+			n = 500000
 		}
 		for i := 0; i < n; i++ {
 			site := "field"
